@@ -707,7 +707,7 @@ func exec(spec string) (res engine.Result) {
 		}
 		t0 := time.Now()
 		for i := 0; i < 2000; i++ {
-			execProgram(p, true)
+			execProgram(p, true, true)
 		}
 		res.Outcome = fmt.Sprintf("%v per case", time.Since(t0)/2000)
 		return
@@ -717,7 +717,7 @@ func exec(spec string) (res engine.Result) {
 		res.Fail("harness:bad-spec", spec+": "+perr.Error())
 		return
 	}
-	return execProgram(p, true)
+	return execProgram(p, true, true)
 }
 
 // execProgram runs one program on slip and judges it. With reduce set, a
@@ -726,7 +726,7 @@ func exec(spec string) (res engine.Result) {
 // if that one fails too, the defect sits below the named form and the shorter
 // program's verdict is reported instead (so a signature names the smallest
 // nesting that shows the failure).
-func execProgram(p *program, reduce bool) (res engine.Result) {
+func execProgram(p *program, reduce, resources bool) (res engine.Result) {
 	spec := p.spec()
 	unique := fmt.Sprintf("%d-%d", os.Getpid(), caseCounter.Add(1))
 	b := buildProgram(p, unique)
@@ -845,17 +845,35 @@ func execProgram(p *program, reduce bool) (res engine.Result) {
 
 	o := &observation{val: val, err: err, trace: trace}
 	blamed := judge(&res, b, &ex, o, tgt, exitSig, origClass, src)
-	if reduce && 0 <= blamed && blamed < n-1 {
-		if rp := reduced(p, tgt, blamed); rp != nil {
-			if rr := execProgram(rp, true); 0 < len(rr.Failures) {
-				res.Failures = res.Failures[:0]
-				for _, f := range rr.Failures {
-					if !strings.HasPrefix(f.Sig, "harness:") {
-						res.Fail(f.Sig, "reduced from "+spec+" to "+rp.spec()+"\n"+f.Detail)
-					}
+	if reduce && 0 < len(res.Failures) {
+		// Name the smallest nesting that shows the failure: (a) a "continues" verdict on a form
+		// that merely contains the sub-chain holding the exit is retried without that form and
+		// everything above it; (b) any other verdict is retried without the contexts around the
+		// target (which only decide what comes *after* the transfer). If the shorter program fails
+		// too, its verdict is reported; if it passes, the longer program's own verdict stands.
+		from := -1
+		switch {
+		case 0 <= blamed && blamed < n-1:
+			from = blamed + 1
+		case 0 < tgt:
+			from = tgt + 1
+		}
+		if rp := reduced(p, tgt, from); rp != nil {
+			rr := execProgram(rp, true, false)
+			var keep []engine.Failure
+			for _, f := range rr.Failures {
+				if !strings.HasPrefix(f.Sig, "harness:") {
+					keep = append(keep, engine.Failure{Sig: f.Sig, Detail: "reduced from " + spec + " to " + rp.spec() + "\n" + f.Detail})
 				}
 			}
+			if 0 < len(keep) {
+				res.Failures = keep
+			}
 		}
+	}
+	if !resources {
+		res.Outcome = o.digest()
+		return
 	}
 
 	// resources, whatever happened above
@@ -902,18 +920,21 @@ func resourceSig(p *program, exitSig string, tgt int, kind string) string {
 	return fmt.Sprintf("exit=%s target=%s kind=%s", exitSig, targetName(p, tgt), kind)
 }
 
-// reduced builds [target at its canonical position] + ctxs[blamed+1:] with the
-// same exit (a go is re-aimed at the new root).
-func reduced(p *program, tgt, blamed int) *program {
+// reduced builds [target at its canonical position] + ctxs[from:] with the
+// same exit (a go is re-aimed at the new root); nil if that is not shorter.
+func reduced(p *program, tgt, from int) *program {
+	if from < 0 {
+		return nil
+	}
 	rp := &program{exit: p.exit}
 	if 0 <= tgt {
 		rp.ctxs = append(rp.ctxs, ctx{p.ctxs[tgt].kind, canonPos(p.ctxs[tgt].kind)})
 	}
-	rp.ctxs = append(rp.ctxs, p.ctxs[blamed+1:]...)
+	rp.ctxs = append(rp.ctxs, p.ctxs[from:]...)
 	if strings.HasPrefix(p.exit, "go-") {
 		rp.exit = "go-0" + p.exit[len(p.exit)-1:]
 	}
-	if len(p.ctxs) <= len(rp.ctxs) {
+	if len(p.ctxs) <= len(rp.ctxs) || !validNesting(rp.ctxs) {
 		return nil
 	}
 	if t, _ := target(rp); t == -3 {
@@ -1094,7 +1115,7 @@ func judge(res *engine.Result, b *built, ex *expectation, o *observation, tgt in
 			case rel == "-":
 				fail("trace", "got="+ownerName(b, m)+"."+m.role+" want="+want, detail(what))
 			default:
-				fail("skipped", "want="+want, detail(what))
+				fail("skipped", "want="+want+" got="+rel, detail(what))
 			}
 		case o.err != nil && !expectedErr:
 			after := "start"
@@ -1104,7 +1125,7 @@ func judge(res *engine.Result, b *built, ex *expectation, o *observation, tgt in
 			fail("unexpected-error", "class="+o.err.Class+" after="+after+" want="+want,
 				detail(fmt.Sprintf("the program stopped with %s after %d markers, expected marker %s next", o.err.Class, i, ex.out.Trace[i])))
 		default:
-			fail("skipped", "want="+want, detail(fmt.Sprintf("trace ends after %d markers, expected marker %s next", i, ex.out.Trace[i])))
+			fail("skipped", "want="+want+" got=end", detail(fmt.Sprintf("trace ends after %d markers, expected marker %s next", i, ex.out.Trace[i])))
 		}
 		return
 	}
